@@ -3,8 +3,8 @@
     setWeight/TargetConfig, route/parse_new.go).
     This file contains only statements, [exact], and [Print Assumptions].
     [flat t] is the content of a table: its (host, path, target) triples in order. *)
-From Coq Require Import String List NArith.
-From Fabio Require Import Lib.Outcome Lib.Bytes Model.WtF64 Model.TableCmd Model.RouteText Proofs.TableCmd Proofs.RouteRoundTrip.
+From Coq Require Import String List NArith Permutation.
+From Fabio Require Import Lib.Outcome Lib.Bytes Model.WtF64 Model.TableCmd Model.RouteText Proofs.TableCmd Proofs.RouteRoundTrip Proofs.RouteReach.
 Import ListNotations.
 Local Open Scope N_scope.
 
@@ -106,10 +106,9 @@ Print Assumptions C05_host_case_weight_repaired.
    empty route or host (the invariant); host in lower case, accepted by glob.Compile (as every host
    that add ever stored is, since c9fb527) and host ++ path splits back into
    (host, path); no route with two targets equal in service, URL, weight and tags ([twin_free]);
-   service, host ++ path, URL, option keys
-   and values are strings over the SAFE BYTE CLASS [safe] (printable ASCII without space, quote,
-   backslash; option keys without =); tags ([tag_ok], since dfc4ae0) are non-empty strings of ANY
-   bytes except quote, comma and newline that TrimSpace leaves unchanged; option keys in
+   service, host ++ path and URL are non-empty tokens ([tokb]: no white space, as the grammar's \S+);
+   option keys and values hold no white space and no quote, keys no = ([kv_ok]); tags ([tag_ok], since dfc4ae0) are non-empty strings of ANY
+   ASCII bytes except quote, comma and newline that TrimSpace leaves unchanged; option keys in
    ascending order; no negative weight; every positive weight is a fixed point of
    parse-after-print ([weight_text_stable]: pweight_dec (fmt4 w) = Ok w, i.e. w is on the
    4-decimal grid).
@@ -233,7 +232,7 @@ Proof. exact empty_tag_refuted. Qed.
 Print Assumptions C05_empty_tag_refuted.
 
 (* the round trip's tag domain: any byte but quote, comma, newline; non-empty; TrimSpace-stable *)
-Theorem C05_tag_domain_wide : tag_ok (bs "x\y") = true /\ tag_ok [1; 92; 200] = true /\ tag_ok (bs "a b") = true.
+Theorem C05_tag_domain_wide : tag_ok (bs "x\y") = true /\ tag_ok [1; 92; 127] = true /\ tag_ok (bs "a b") = true.
 Proof. exact tag_domain_wide. Qed.
 Print Assumptions C05_tag_domain_wide.
 
@@ -245,8 +244,9 @@ Theorem C05_empty_url_refuted :
 Proof. exact empty_url_refuted. Qed.
 Print Assumptions C05_empty_url_refuted.
 
-(* Nothing in the command language can crash: whatever the text and whatever url.Parse,
-   glob.Compile and strconv.ParseFloat answer, NewTable returns an error or a table ... *)
+(* MECHANISM LEMMA, not coverage of the code: the model contains no Panic site, so this holds by
+   construction; it is what lets C02/C14 compose the model.  That the real NewTable does not
+   panic is observed by the harness only (a recovered panic is a violation). *)
 Theorem C05_new_table_never_panics : forall pweight canon glob_ok text,
   new_table pweight canon glob_ok text <> Panic.
 Proof. exact new_table_never_panics. Qed.
@@ -281,6 +281,82 @@ Theorem C05_new_table_sorted : forall pweight canon glob_ok text t,
   new_table pweight canon glob_ok text = Ok t -> Forall (fun hr => desc_sorted (snd hr)) t.
 Proof. exact new_table_sorted. Qed.
 Print Assumptions C05_new_table_sorted.
+
+(* ===== audit follow-up (Proofs/RouteReach.v) =====
+   Stored hosts ARE lower-case after every command sequence: comparing a stored host with the
+   lower-cased host of a command (del_selects_ci, weight_selects_ci) is comparing modulo case. *)
+Theorem C05_run_hosts_lower : forall canon glob_ok ds t,
+  run canon glob_ok ds = Ok t -> Forall (fun hr => lower (fst hr) = fst hr) t.
+Proof. exact run_hosts_lower. Qed.
+Print Assumptions C05_run_hosts_lower.
+
+(* reachable tables: hosts lower-case and compiling, paths compiling, host ++ path splits back *)
+Theorem C05_run_sgood : forall canon glob_ok ds t, run canon glob_ok ds = Ok t -> sgood glob_ok t.
+Proof. exact run_sgood. Qed.
+Print Assumptions C05_run_sgood.
+
+(* del and weight are case-insensitive in the host as equations between commands, like add *)
+Theorem C05_host_case_insensitive_del : forall canon t d1 d2,
+  same_but_src d1 d2 -> del_route canon t d1 = del_route canon t d2.
+Proof. exact host_case_insensitive_del. Qed.
+Print Assumptions C05_host_case_insensitive_del.
+
+Theorem C05_host_case_insensitive_weight : forall t d1 d2,
+  same_but_src d1 d2 -> weigh_route t d1 = weigh_route t d2.
+Proof. exact host_case_insensitive_weight. Qed.
+Print Assumptions C05_host_case_insensitive_weight.
+
+(* add in general position: absorbed iff a target with the same service, URL, weight and tags is
+   stored under its (host, path) -- wherever, however it got there -- else exactly one insertion *)
+Theorem C05_add_route_spec : forall canon glob_ok t d t1,
+  inv t -> add_route canon glob_ok t d = Ok t1 ->
+  exists url, canon (d_dst d) = Some url /\
+  if add_key_present d url (flat t) then t1 = t
+  else exists X Y, flat t = X ++ Y /\
+         flat t1 = X ++ (lower (fst (hostpath (d_src d))), snd (hostpath (d_src d)),
+                         new_target (d_svc d) url (d_w d) (d_tags d) (d_opts d)) :: Y.
+Proof. exact add_route_spec. Qed.
+Print Assumptions C05_add_route_spec.
+
+(* THE COMPOSED STATEMENT: for every command sequence the content of the resulting table is, as a
+   multiset of (host, path, target) triples, what the list-level command semantics [spec_step]
+   (no table structure, no lookup) computes. *)
+Theorem C05_run_meets_spec : forall canon glob_ok ds t,
+  run canon glob_ok ds = Ok t -> exists l, spec_run canon [] ds = Some l /\ Permutation (flat t) l.
+Proof. exact run_meets_spec. Qed.
+Print Assumptions C05_run_meets_spec.
+
+(* F-C05-5, REPAIRED in /repo by 0b2a40e: with a weight on which the comparison of the
+   de-duplication is irreflexive (float64 == on NaN) the same add twice stores two targets ... *)
+Theorem C05_nan_weight_add_refuted : forall weqb svc url w tags opts p,
+  weqb (w_clamp w) (w_clamp w) = false ->
+  let r0 := {| r_path := p; r_targets := [] |} in
+  let r1 := add_target_cmp weqb svc url w tags opts r0 in
+  let r2 := add_target_cmp weqb svc url w tags opts r1 in
+  length (r_targets r1) = 1%nat /\ length (r_targets r2) = 2%nat.
+Proof. exact nan_weight_add_refuted. Qed.
+Print Assumptions C05_nan_weight_add_refuted.
+
+(* ... the parser now delivers numbers only, the comparison is reflexive on them (and
+   [add_target] is [add_target_cmp] at that comparison), so C05_add_idempotent has no proviso *)
+Theorem C05_text_weights_reflexive : forall w, wt_eqb w w = true.
+Proof. exact text_weights_reflexive. Qed.
+Print Assumptions C05_text_weights_reflexive.
+
+Theorem C05_add_target_is_cmp : forall svc url w tags opts r,
+  add_target svc url w tags opts r = add_target_cmp wt_eqb svc url w tags opts r.
+Proof. exact add_target_is_cmp. Qed.
+Print Assumptions C05_add_target_is_cmp.
+
+(* The text round trip for the tables NewTable returns: the structural half of the domain is
+   derived from reachability; assumed is only what concerns the targets' own content. *)
+Theorem C05_roundtrip_reachable : forall canon glob_ok pweight text t,
+  new_table pweight canon glob_ok text = Ok t ->
+  targets_good canon t -> text_good t ->
+  new_table pweight_dec canon glob_ok (render t) = Ok (sort_table (reorder t))
+  /\ forall h, lookup h (sort_table (reorder t)) = option_map sort_routes (lookup h t).
+Proof. exact roundtrip_reachable. Qed.
+Print Assumptions C05_roundtrip_reachable.
 
 (* non-vacuity: a real script reaches a table (hence [inv]) on which a weight command and a del
    command, both naming the host in mixed case, matched *)
